@@ -38,6 +38,29 @@ def boundary_segs(level_strategy=None):
                      st.integers(0, 2**32 - 1), st.integers(0, 255)).map(mk)
 
 
+def edge_segs(level_strategy):
+    """Inputs whose N*100000-byte input-buffer edge (sequential mode reads such buffers) falls inside or right
+    after a run of t equal bytes while the block has s free slots left: [run A x(5+s)] [fill] [X x t] | [X x u] [Y ...]"""
+    def mk(t):
+        level, s, tl, u, seed, a, x, k = t
+        cap = level * 100000
+        if x == a:
+            x = (a + 1) % 256
+        segs = []
+        used = 0
+        if s > 0 or seed % 2:
+            segs.append(("run", a, 5 + s))
+            used = 5 + s
+        body = cap * k - used - tl
+        segs.append(("fillx", max(0, body), seed, a, x))
+        segs.append(("run", x, tl + u))
+        segs.append(("fillx", 1 + seed % 50, seed + 1, a, x))
+        return level, segs
+    return st.tuples(level_strategy, st.integers(0, 4), st.sampled_from([1, 2, 3, 4, 5, 258, 259]),
+                     st.sampled_from([0, 0, 1, 2, 3, 255, 256]), st.integers(0, 2**32 - 1), st.integers(0, 255),
+                     st.integers(0, 255), st.sampled_from([1, 1, 2])).map(mk)
+
+
 def case_strategy(max_total, boundary_weight=1, levels=None):
     lv = st.integers(1, 9) if levels is None else st.sampled_from(levels)
     generic = st.fixed_dictionaries({
@@ -53,7 +76,9 @@ def case_strategy(max_total, boundary_weight=1, levels=None):
         return {"segs": list(segs) + list(tail), "level": level, "seq": seq, "n": n, "sched": sched}
     boundary = st.tuples(boundary_segs(small_lv), st.booleans(), st.sampled_from([1, 2, 4, 16]), SCHED,
                          st.lists(plain.segment(2000), max_size=2)).map(from_boundary)
-    return st.one_of(*([generic] * 3 + [boundary] * boundary_weight))
+    edge = st.tuples(edge_segs(small_lv), st.sampled_from([True, True, False]), st.sampled_from([1, 2, 4, 16]), SCHED,
+                     st.lists(plain.segment(2000), max_size=1)).map(from_boundary)
+    return st.one_of(*([generic] * 3 + [boundary] * boundary_weight + [edge] * boundary_weight))
 
 
 def compress_and_inspect(exe, case, lens=False, freq=False):
